@@ -377,6 +377,17 @@ class Interpreter(BaseInterpreter[TContext, TEvent]):
         # 📦 Use the centralized helper from the base class to normalize the input.
         event_obj = self._prepare_event(event_or_type, **payload)
 
+        # 🔁 A `done.state.*` event produced while an event is being processed
+        #    is self-raised like a `raise`: count it, so an `onDone` that
+        #    re-completes its own state is cut by the chain breaker instead
+        #    of spinning forever without ever yielding to the event loop.
+        if (
+            self._processing
+            and isinstance(event_obj, DoneEvent)
+            and event_obj.type.startswith("done.state.")
+        ):
+            self._raise_depth += 1
+
         # 📥 Place the standardized event object into the async queue.
         await self._event_queue.put(event_obj)
 
